@@ -1,12 +1,13 @@
 (** correspondence for the SSO endpoint (C02, C05, C06, C08): the model run on the abstract inputs of a case
     must reproduce the projected observation of the real handler. *)
-From Saml Require Import Base.Bytes Idp.FactTypes Gen.Facts Gen.Pure Idp.Sso.
+From Saml Require Import Base.Bytes Idp.FactTypes Gen.Facts Gen.Pure Idp.Sso Xml.SchemaTypes Xml.Schema Xml.Unmarshal Idp.AuthnOf.
 
 Record sso_obs := { o_kind : Z; o_status : bytes; o_target : bytes; o_relay : bytes; o_irt : bytes; o_sigalg : bytes;
                     o_login : bytes; o_issuer : bytes; o_dest : bytes; o_creates : list create_args }.
 Record sso_case := { k_id : Z; k_form : option form; k_dec : option authn; k_sp : option sp_rec; k_vr : bool; k_vp : bool;
                      k_times : list (bytes * instant); k_now : Z; k_create : option bytes; k_want : bytes; k_locs : list bytes;
-                     k_eid : bytes; k_cert_ok : bool; k_obs : sso_obs }.
+                     k_eid : bytes; k_cert_ok : bool; k_obs : sso_obs;
+                     k_doc : option (bool * rnode)  (* the inflated payload as Go's decoder resolves it: trailing content?, root element *) }.
 
 Fixpoint assoc_instant (s : bytes) (l : list (bytes * instant)) : instant :=
   match l with [] => if is_empty s then IAbsent else IBad | (k, v) :: r => if beq s k then v else assoc_instant s r end.
@@ -42,7 +43,14 @@ Definition obs_eqb (x y : sso_obs) : bool :=
   beq (o_irt x) (o_irt y) && beq (o_sigalg x) (o_sigalg y) && beq (o_login x) (o_login y) && beq (o_issuer x) (o_issuer y) &&
   beq (o_dest x) (o_dest y) && list_eqb create_eqb (o_creates x) (o_creates y).
 
-Definition sso_ok (k : sso_case) : bool := obs_eqb (project (model_of k)) (k_obs k).
+(** the abstract request the case carries is what the model of DecodeAuthNRequest (Unmarshal over the generated schema, then
+    the projection of Idp/AuthnOf.v) makes of the request document *)
+Definition doc_ok (k : sso_case) : bool :=
+  match k_doc k with
+  | Some (trailing, doc) => option_eqb authn_eqb (authn_of_doc trailing doc) (k_dec k)
+  | None => true
+  end.
+Definition sso_ok (k : sso_case) : bool := obs_eqb (project (model_of k)) (k_obs k) && doc_ok k.
 Definition sso_bad (ks : list sso_case) : list Z := map k_id (filter (fun k => negb (sso_ok k)) ks).
 (** debugging aid: what the model predicts *)
 Definition sso_predict (k : sso_case) := project (model_of k).
